@@ -396,7 +396,11 @@ fn observe_game(g: &Game, ev: &mut Map<String, Value>) {
     ev.insert("can".into(), json!(g.can_declare_draw()));
 }
 
-const GAME_FENS: [&str; 20] = [
+const GAME_FENS: [&str; 24] = [
+    "1n2k3/8/8/8/7p/8/P7/4K1N1 w - - 0 1",
+    "1n2k3/p7/8/7P/8/8/8/4K1N1 b - - 0 1",
+    "4k1n1/8/8/8/p7/8/7P/1N2K3 w - - 0 1",
+    "4k1n1/7p/8/P7/8/8/8/1N2K3 b - - 0 1",
     "rn2k1nr/8/8/8/8/8/8/RN2K1NR w KQkq - 0 1",
     "r3k1nr/8/8/8/8/8/8/R3K1NR w KQkq - 0 1",
     "8/P3k3/8/8/8/8/8/4K3 w - - 0 1",
@@ -494,6 +498,19 @@ fn game_chunk(rng: &mut Rng, events: usize, out: &mut dyn Write, claims: bool) {
                 }
             }
         }
+        // rook-pawn roots: the double push comes first and stays the last pawn move, so that the position after it
+        // (no en-passant capture possible: the only enemy pawn is across the board edge) can recur
+        let edge_root = text.contains("/7p/8/P7/") || text.contains("/p7/8/7P/") || text.contains("/8/7p/8/P7/") || text.contains("/p7/8/8/7P/")
+            || GAME_FENS[..4].contains(&text);
+        if edge_root && shuffle {
+            let b0 = g.current_position();
+            let push: Vec<ChessMove> = MoveGen::new_legal(&b0)
+                .filter(|m| b0.piece_on(m.get_source()) == Some(Piece::Pawn) && (m.get_source().to_index() as i32 - m.get_dest().to_index() as i32).abs() == 16)
+                .collect();
+            if !push.is_empty() {
+                script = vec![push[0]];
+            }
+        }
         // a marathon game only asks whether a draw could be claimed, it never claims (300+ quiet half-moves)
         let marathon = shuffle && rng.chance(1, 5);
         let len = if marathon { 300 + rng.below(40) } else { len };
@@ -517,7 +534,7 @@ fn game_chunk(rng: &mut Rng, events: usize, out: &mut dyn Write, claims: bool) {
                     None
                 };
                 // early on, run a pawn home (a promotion without capture is a pawn move too)
-                let pawnrun: Vec<ChessMove> = if shuffle && plies < 12 {
+                let pawnrun: Vec<ChessMove> = if shuffle && plies < 12 && !edge_root {
                     ms.iter().cloned().filter(|m| b.piece_on(m.get_source()) == Some(Piece::Pawn) && b.piece_on(m.get_dest()).is_none()).collect()
                 } else {
                     vec![]
@@ -723,6 +740,7 @@ fn random_mask(rng: &mut Rng, b: &Board) -> BitBoard {
 fn iter_script(rng: &mut Rng, b: &Board, out: &mut dyn Write, n: &mut usize) {
     let all: Vec<ChessMove> = MoveGen::new_legal(b).collect();
     let mut g = MoveGen::new_legal(b);
+    let mut sh = MoveGen::new_legal(b);
     let p = proj(b);
     writeln!(
         out,
@@ -738,6 +756,7 @@ fn iter_script(rng: &mut Rng, b: &Board, out: &mut dyn Write, n: &mut usize) {
     if rng.chance(1, 3) {
         let m = random_mask(rng, b);
         g.set_iterator_mask(m);
+        sh.set_iterator_mask(m);
         writeln!(out, "{}", json!({"event": "SetMask", "mask": mask_json(m)})).unwrap();
         *n += 1;
         log_len(&g, out, n);
@@ -748,6 +767,7 @@ fn iter_script(rng: &mut Rng, b: &Board, out: &mut dyn Write, n: &mut usize) {
         if rng.chance(1, 3) {
             let m = random_mask(rng, b);
             g.remove_mask(m);
+            sh.remove_mask(m);
             writeln!(out, "{}", json!({"event": "RemoveMask", "mask": mask_json(m)})).unwrap();
         } else {
             // prefer en-passant captures and promotions when there are any
@@ -765,23 +785,118 @@ fn iter_script(rng: &mut Rng, b: &Board, out: &mut dyn Write, n: &mut usize) {
                 ChessMove::new(Square::new((r & 63) as u8), Square::new(((r >> 6) & 63) as u8), None)
             };
             let ret = g.remove_move(m);
+            sh.remove_move(m);
             writeln!(out, "{}", json!({"event": "RemoveMove", "m": mv_json(m), "ret": ret})).unwrap();
         }
         *n += 1;
         log_len(&g, out, n);
     }
-    // masks, each drawn to exhaustion; the last one is the full mask
+    // masks, each drawn to exhaustion; the last one is the full mask.  A shadow generator receives the same calls but is
+    // only ever advanced by next(): until the first adaptor call both are in the same state, so the moves an adaptor
+    // (nth / skip / step_by) passes over are the ones the shadow yields - they are logged as drawn ("via": "skipped").
+    // At most one such call per script; afterwards the shadow is not consulted any more.
     let nmasks = rng.below(4);
+    let mut adaptor_used = false;
     for k in 0..=nmasks {
         let m = if k == nmasks { !EMPTY } else { random_mask(rng, b) };
         if !(k == 0 && nmasks == 0 && rng.chance(1, 2)) {
             g.set_iterator_mask(m);
+            sh.set_iterator_mask(m);
             writeln!(out, "{}", json!({"event": "SetMask", "mask": mask_json(m)})).unwrap();
             *n += 1;
             log_len(&g, out, n);
         }
         loop {
+            // now and then drain what is left under this mask through a consuming adaptor
+            if rng.chance(1, 14) {
+                let before = g.len();
+                let (via, count, last): (&str, usize, Option<ChessMove>) = match rng.below(4) {
+                    0 => ("count", g.by_ref().count(), None),
+                    1 => {
+                        let mut c = 0;
+                        let l = g.by_ref().fold(None, |_, x| {
+                            c += 1;
+                            Some(x)
+                        });
+                        ("fold", c, l)
+                    }
+                    2 => {
+                        let mut c = 0;
+                        let mut l = None;
+                        g.by_ref().for_each(|x| {
+                            c += 1;
+                            l = Some(x)
+                        });
+                        ("for_each", c, l)
+                    }
+                    _ => {
+                        let l = g.by_ref().last();
+                        ("last", before, l)
+                    }
+                };
+                while sh.next().is_some() {}
+                writeln!(out, "{}", json!({"event": "Drain", "via": via, "count": count, "has_last": via != "count",
+                                          "last": last.map(mv_json).unwrap_or(json!([]))})).unwrap();
+                *n += 1;
+                log_len(&g, out, n);
+                break;
+            }
+            if !adaptor_used && rng.chance(1, 6) {
+                adaptor_used = true;
+                let kk = 1 + rng.below(3);
+                let mut skipped: Vec<ChessMove> = vec![];
+                for _ in 0..kk {
+                    if let Some(x) = sh.next() {
+                        skipped.push(x);
+                    }
+                }
+                let expect = if skipped.len() == kk { sh.next() } else { None };
+                let (via, r) = match rng.below(3) {
+                    0 => ("nth", g.nth(kk)),
+                    1 => ("skip", g.by_ref().skip(kk).next()),
+                    _ => {
+                        // step_by(kk + 1): the first element, then every (kk+1)-th: take the second one
+                        let mut it = g.by_ref().step_by(kk + 1);
+                        let first = it.next();
+                        let second = it.next();
+                        // the first element was drawn too: it is what the shadow yielded first
+                        if let Some(f) = first {
+                            let sf = skipped.first().cloned();
+                            writeln!(out, "{}", json!({"event": "Next", "ret": mv_json(f), "via": "step_by_first", "agree": sf == Some(f)})).unwrap();
+                            *n += 1;
+                            if !skipped.is_empty() {
+                                skipped.remove(0);
+                            }
+                            // the shadow has to pass over one more move to stay in step
+                            if skipped.len() + 1 == kk {
+                                if let Some(e) = expect {
+                                    skipped.push(e);
+                                }
+                            }
+                        }
+                        ("step_by", second)
+                    }
+                };
+                let expect = if via == "step_by" { if skipped.len() == kk { sh.next() } else { None } } else { expect };
+                for x in skipped.iter() {
+                    writeln!(out, "{}", json!({"event": "Next", "ret": mv_json(*x), "via": "skipped"})).unwrap();
+                    *n += 1;
+                }
+                match r {
+                    Some(mv) => writeln!(out, "{}", json!({"event": "Next", "ret": mv_json(mv), "via": via, "agree": expect == Some(mv)})).unwrap(),
+                    None => writeln!(out, "{}", json!({"event": "Next", "ret": [], "via": via, "agree": expect.is_none()})).unwrap(),
+                }
+                *n += 1;
+                log_len(&g, out, n);
+                if r.is_none() {
+                    break;
+                }
+                continue;
+            }
             let r = g.next();
+            if !adaptor_used {
+                sh.next();
+            }
             match r {
                 Some(mv) => writeln!(out, "{}", json!({"event": "Next", "ret": mv_json(mv)})).unwrap(),
                 None => writeln!(out, "{}", json!({"event": "Next", "ret": []})).unwrap(),
@@ -1083,6 +1198,52 @@ fn builder_of(sq: &[u8; 64], stm: u8, cr: u8, epfile: i64) -> BoardBuilder {
     bb
 }
 
+/// the same builder state reached through different orders of the setter calls (0: as builder_of)
+fn builder_by_order(sq: &[u8; 64], stm: u8, cr: u8, epfile: i64, order: usize) -> BoardBuilder {
+    let mut bb = builder_of(sq, stm, cr, epfile);
+    let stmc = if stm == b'w' { Color::White } else { Color::Black };
+    let epf = if epfile >= 0 { Some(File::from_index(epfile as usize)) } else { None };
+    match order {
+        1 => {
+            // en passant first, side to move afterwards (twice, via the other colour)
+            bb.en_passant(epf);
+            bb.side_to_move(!stmc);
+            bb.side_to_move(stmc);
+        }
+        2 => {
+            bb.side_to_move(!stmc);
+            bb.en_passant(epf);
+            bb.side_to_move(stmc);
+        }
+        3 => {
+            // through setup()
+            let mut men = vec![];
+            for i in 0..64u8 {
+                if let Some((pc, c)) = letter_piece(sq[i as usize]) {
+                    men.push((Square::new(i), pc, c));
+                }
+            }
+            bb = BoardBuilder::setup(&men, stmc, castle_rights_of(cr, Color::White), castle_rights_of(cr, Color::Black), epf);
+        }
+        4 => {
+            // a fresh builder (White to move by default): en passant before the side to move is named
+            let mut b2 = BoardBuilder::new();
+            b2.en_passant(epf);
+            for i in 0..64u8 {
+                if let Some((pc, c)) = letter_piece(sq[i as usize]) {
+                    b2.piece(Square::new(i), pc, c);
+                }
+            }
+            b2.castle_rights(Color::White, castle_rights_of(cr, Color::White));
+            b2.castle_rights(Color::Black, castle_rights_of(cr, Color::Black));
+            b2.side_to_move(stmc);
+            bb = b2;
+        }
+        _ => {}
+    }
+    bb
+}
+
 fn log_outcome(ev: &mut Map<String, Value>, r: std::thread::Result<Result<Board, Error>>, progress: &str, input: &Value) {
     match r {
         Err(_) => {
@@ -1249,36 +1410,10 @@ fn validate_chunk(rng: &mut Rng, events: usize, out: &mut dyn Write, progress: &
                 // the builder as a data structure: getters, indexing, rendering, re-parsing
                 let mut ev = input.as_object().unwrap().clone();
                 ev.insert("event".into(), json!("BuilderState"));
-                let order = rng.below(4);
+                let order = rng.below(5);
                 let r = std::panic::catch_unwind(|| {
                     // the same state reached through different orders of the setter calls
-                    let mut bb = builder_of(&sq, stm, cr, epfile);
-                    let stmc = if stm == b'w' { Color::White } else { Color::Black };
-                    let epf = if epfile >= 0 { Some(File::from_index(epfile as usize)) } else { None };
-                    match order {
-                        1 => {
-                            // en passant first, side to move afterwards (twice, via the other colour)
-                            bb.en_passant(epf);
-                            bb.side_to_move(!stmc);
-                            bb.side_to_move(stmc);
-                        }
-                        2 => {
-                            bb.side_to_move(!stmc);
-                            bb.en_passant(epf);
-                            bb.side_to_move(stmc);
-                        }
-                        3 => {
-                            // through setup()
-                            let mut men = vec![];
-                            for i in 0..64u8 {
-                                if let Some((pc, c)) = letter_piece(sq[i as usize]) {
-                                    men.push((Square::new(i), pc, c));
-                                }
-                            }
-                            bb = BoardBuilder::setup(&men, stmc, castle_rights_of(cr, Color::White), castle_rights_of(cr, Color::Black), epf);
-                        }
-                        _ => {}
-                    }
+                    let bb = builder_by_order(&sq, stm, cr, epfile, order);
                     let text = format!("{}", bb);
                     let text2 = match BoardBuilder::from_str(&text) {
                         Ok(b2) => format!("{}", b2),
@@ -1322,8 +1457,12 @@ fn validate_chunk(rng: &mut Rng, events: usize, out: &mut dyn Write, progress: &
                 // through the builder
                 let mut ev = input.as_object().unwrap().clone();
                 ev.insert("event".into(), json!("Build"));
-                let bb = builder_of(&sq, stm, cr, epfile);
-                let r = std::panic::catch_unwind(|| Board::try_from(&bb));
+                let order = if rng.chance(1, 2) { 0 } else { rng.below(5) };
+                ev.insert("order".into(), json!(order));
+                let r = std::panic::catch_unwind(|| {
+                    let bb = builder_by_order(&sq, stm, cr, epfile, order);
+                    Board::try_from(&bb)
+                });
                 log_outcome(&mut ev, r, progress, &input);
                 writeln!(out, "{}", Value::Object(ev)).unwrap();
             } else {
@@ -1446,7 +1585,9 @@ fn cache_chunk(rng: &mut Rng, events: usize, out: &mut dyn Write, progress: &str
             Err(_) => continue,
         };
         let shift = (size as u64).trailing_zeros();
-        // a small pool of hashes, so that slots collide under different tags; includes hash 0 and all-ones
+        // a small pool of hashes, so that slots collide under different hashes; includes hash 0 and all-ones.  The
+        // candidates are SHAPED for the usual slot functions (low bits; both halves folded), but which of them share a
+        // slot is never computed here: it is observed on a scratch table (SlotProber) and logged as the class id
         let mut pool: Vec<u64> = vec![0, u64::MAX, 1, size as u64, (size as u64).wrapping_sub(1)];
         for _ in 0..(4 + rng.below(12)) {
             let idx = rng.next() & (size as u64 - 1);
@@ -1460,21 +1601,54 @@ fn cache_chunk(rng: &mut Rng, events: usize, out: &mut dyn Write, progress: &str
             pool.push(pool[i] ^ (1u64 << 32));
             pool.push(pool[i] ^ (1u64 << 63));
             pool.push(pool[i] ^ 0xFFFF_FFFF_0000_0000);
-            // same slot, and the same value when both halves of the word are folded together
+            // the same low bits, and the same value when both halves of the word are folded together
             for x in [1u64 << 31, 1u64 << 24, 0x00FF_0000u64].iter() {
                 if (*x & (size as u64).wrapping_sub(1)) == 0 {
                     pool.push(pool[i] ^ (x << 32) ^ x);
                 }
             }
         }
+        // small tables: a few arbitrary hashes as well (any slot function makes them collide by pigeonhole)
+        if size <= 64 {
+            for _ in 0..(2 * size + 4) {
+                pool.push(rng.next());
+            }
+        }
+        let probed = std::panic::catch_unwind(|| {
+            let mut pr = SlotProber::new(size);
+            let cls: Vec<usize> = pool.iter().map(|h| pr.class_of(*h)).collect();
+            (pr, cls)
+        });
+        let (mut prober, pool_class) = match probed {
+            Ok(x) => x,
+            Err(_) => {
+                writeln!(out, "{}", json!({"op": "probe", "n": size, "panicked": true, "classes": 0})).unwrap();
+                n += 1;
+                continue;
+            }
+        };
+        writeln!(out, "{}", json!({"op": "probe", "n": size, "panicked": false, "classes": prober.reps.len(), "hashes": pool.len()})).unwrap();
+        n += 1;
         let ops = 50 + rng.below(400);
         for _ in 0..ops {
             if n >= events {
                 return;
             }
-            let h = if rng.chance(9, 10) { pool[rng.below(pool.len())] } else { rng.next() };
-            let idx = h & (size as u64 - 1);
-            let tag = if shift == 0 { h } else { h >> shift };
+            let (h, idx) = if rng.chance(9, 10) {
+                let j = rng.below(pool.len());
+                (pool[j], pool_class[j])
+            } else {
+                let h = rng.next();
+                let c = match std::panic::catch_unwind(std::panic::AssertUnwindSafe(|| prober.class_of(h))) {
+                    Ok(c) => c,
+                    Err(_) => {
+                        writeln!(out, "{}", json!({"op": "probe", "n": size, "panicked": true, "classes": 0})).unwrap();
+                        return;
+                    }
+                };
+                (h, c)
+            };
+            let tag = h;      // the hash itself identifies it; idx is the observed slot class
             let v = rng.below(7) as i64;
             stamp += 1;
             let val = CV { k: v, a: stamp };
@@ -1653,6 +1827,7 @@ fn mine_chunk(rng: &mut Rng, events: usize, out: &mut dyn Write) {
     let mut n = 0;
     let mut tries: u64 = 0;
     let mut quota = [0usize; 14];
+    let mut nullq = 0usize;
     let kinds_w = b"PPPNBRQ";
     let kinds_b = b"pppnbrq";
     while n < events && tries < 40_000_000 {
@@ -1734,6 +1909,27 @@ fn mine_chunk(rng: &mut Rng, events: usize, out: &mut dyn Write) {
                 sq[(5 + rng.below(3)) * 8 + f] = own_k;
             }
         }
+        // template (one try in sixteen): a just-pushed rook pawn and an enemy pawn on the opposite edge file, same rank or one off
+        if tries % 16 == 5 {
+            let f = if rng.chance(1, 2) { 0usize } else { 7 };
+            let (rank, me, them, dir): (usize, u8, u8, i32) = if stm == b'b' { (3, b'P', b'p', -8) } else { (4, b'p', b'P', 8) };
+            let s = rank * 8 + f;
+            let o = ((rank as i32 + [0, 1, -1][rng.below(3)]) as usize) * 8 + 7 - f;
+            let free = |i: usize, sq: &[u8; 64]| sq[i] != b'K' && sq[i] != b'k';
+            let b1 = (s as i32 + dir) as usize;
+            let b2 = (s as i32 + 2 * dir) as usize;
+            if free(s, &sq) && free(o, &sq) && free(b1, &sq) && free(b2, &sq) {
+                sq[s] = me;
+                sq[o] = them;
+                sq[b1] = b'.';
+                sq[b2] = b'.';
+                // no real neighbour
+                let nb = if f == 0 { s + 1 } else { s - 1 };
+                if sq[nb] == them {
+                    sq[nb] = b'.';
+                }
+            }
+        }
         // en-passant state where a double push is plausible: pushed pawn on its fourth rank, the two squares behind it
         // empty, an enemy pawn beside it
         let mut epfile: i64 = -1;
@@ -1744,7 +1940,11 @@ fn mine_chunk(rng: &mut Rng, events: usize, out: &mut dyn Write) {
                 if sq[s] == me
                     && sq[(s as i32 + dir) as usize] == b'.'
                     && sq[(s as i32 + 2 * dir) as usize] == b'.'
-                    && ((f > 0 && sq[s - 1] == them) || (f < 7 && sq[s + 1] == them))
+                    && ((f > 0 && sq[s - 1] == them) || (f < 7 && sq[s + 1] == them)
+                        // a rook pawn: now and then name the square although the only enemy pawn near it stands across the
+                        // board edge (same rank or one off) - a text a standard writer produces; nobody can capture
+                        || ((f == 0 || f == 7) && tries % 3 == 0
+                            && (sq[rank * 8 + 7 - f] == them || sq[(rank + 1) * 8 + 7 - f] == them || sq[(rank - 1) * 8 + 7 - f] == them)))
                 {
                     epfile = f as i64;
                     break;
@@ -1805,6 +2005,32 @@ fn mine_chunk(rng: &mut Rng, events: usize, out: &mut dyn Write) {
                 writeln!(out, "{}", Value::Object(ev)).unwrap();
                 n += 2;
                 continue;
+            }
+        }
+        // one try in three: is the position AFTER PASSING the turn a tight one?  (derived state rebuilt by null_move)
+        if tries % 3 == 1 && quota[13] + nullq < (events / 5).max(2) {
+            if let Some(nb) = b.null_move() {
+                let k = MoveGen::new_legal(&nb).len();
+                let own_n = *nb.color_combined(nb.side_to_move());
+                if k <= 2 && ((*nb.pinned() & own_n) != EMPTY || (*b.pinned() != EMPTY) || k == 0) {
+                    nullq += 1;
+                    let p = proj(&b);
+                    let text = format!("{} 0 1", Pos { sq: p.sq, stm: p.stm, cr: p.cr, ep: if epfile >= 0 { (if stm == b'w' { 40 } else { 16 }) + epfile as i8 } else { -1 } }.describe());
+                    let mut ev = Map::new();
+                    ev.insert("event".into(), json!("Reset"));
+                    ev.insert("text".into(), json!(text));
+                    ev.insert("mined".into(), json!(true));
+                    observe(&b, &mut ev);
+                    writeln!(out, "{}", Value::Object(ev)).unwrap();
+                    let mut ev = Map::new();
+                    ev.insert("event".into(), json!("Null"));
+                    ev.insert("ok".into(), json!(true));
+                    ev.insert("src_unchanged".into(), json!(true));
+                    observe(&nb, &mut ev);
+                    writeln!(out, "{}", Value::Object(ev)).unwrap();
+                    n += 2;
+                    continue;
+                }
             }
         }
         let nmoves = MoveGen::new_legal(&b).len();
